@@ -1,5 +1,8 @@
 (* C04/Properties.v — property theorems only; each closed by a lemma of C04/Proofs.v. *)
-From Relic Require Import Base.Prelude Generated.C04_gen C04.Model C04.Proofs C04.History C04.HistoryProofs.
+From Relic Require Import Base.Prelude Generated.C04_gen C04.Model C04.Proofs C04.History C04.HistoryProofs C04.Names C04.NamesProofs.
+Require Coq.Strings.String.
+Import Coq.Strings.String.StringSyntax.
+Delimit Scope string_scope with string.
 
 (* a token is touched only for a recognised caller entitled to the key the name resolves to (one alias hop),
    and the token touched is that key's token *)
@@ -163,3 +166,123 @@ Example recognition_is_satisfiable :
   spec_recognises (mkXC 900 [50] [10] 5) 1000 [mkX 105 78 1 60 0 2000 [] false; mkX 60 61 2 50 0 2000 [] true] = true /\
   spec_recognises (mkXC 900 [50] [10] 5) 1000 [mkX 105 78 1 60 0 2000 [] false] = false.
 Proof. vm_compute. repeat split. Qed.
+
+(* ==================================================================== key names end to end: authorised entry = used entry *)
+
+(* the views assembled from the generated call sites (which name / which entry every call passes on) behave exactly like
+   the single-request model above: same status, same token, same name handed to the token, same listing *)
+Theorem views_refine_model : forall nc rq, erase (handle_e nc rq) = handle (n_base nc) rq.
+Proof. exact C04.NamesProofs.handle_e_refines. Qed.
+
+(* RESOLUTION IS IDEMPOTENT, for ALL alias graphs (chains of any length through complete entries, cycles, self-aliases,
+   dangling links): the entry GetKey returns carries no alias of its own, and looking its name up again finds it again *)
+Theorem resolved_entry_has_no_alias : forall ks n rn kc, get_key ks n = Ok (rn, kc) -> k_alias kc = 0.
+Proof. exact C04.NamesProofs.resolved_entry_has_no_alias. Qed.
+Theorem get_key_idempotent : forall ks n rn kc, get_key ks n = Ok (rn, kc) -> get_key ks rn = Ok (rn, kc).
+Proof. exact C04.NamesProofs.get_key_idempotent. Qed.
+(* ... so ANY pipeline of components that each resolve the name they are given — of any length, whatever each passes on
+   (the name it received or Name() of the entry it found) — ends at the entry the first resolution found *)
+Theorem pipeline_idempotent : forall ks fs n, relayers ks fs n = get_key ks n.
+Proof. exact C04.NamesProofs.relayers_idempotent. Qed.
+Theorem resolve_times_idempotent : forall ks k n, (1 <= k)%nat -> resolve_times ks k n = get_key ks n.
+Proof. exact C04.NamesProofs.resolve_times_idempotent. Qed.
+(* in a chain of complete entries of any length, entry 2 denotes entry 1 and every name further up is a configuration error *)
+Theorem chain_of_any_length_refused : forall len i, (3 <= i <= S len)%nat ->
+  get_key (chain_keys len) (Z.of_nat i) = Err E_ALIAS_OF_ALIAS.
+Proof. exact C04.NamesProofs.chain_refused. Qed.
+Theorem chain_second_denotes_first : forall len, (1 <= len)%nat ->
+  get_key (chain_keys len) (Z.of_nat 2) = Ok (Z.of_nat 1, mkK 7 0 [1] false).
+Proof. exact C04.NamesProofs.chain_second. Qed.
+
+(* AUTHORISATION AND USE MEET AT THE SAME ENTRY on every path that re-resolves by name — ALL configurations, ALL requests.
+   /sign, tokens the server opens itself (handler -> Init -> InitKey -> Cache -> Limiter -> Metrics -> file token): the entry
+   whose private key makes the signature is the entry the requested name resolves to following one alias, its roles were
+   checked against the caller, the token is that entry's token, certificate and audit record are that entry's *)
+Theorem sign_uses_checked_entry : forall nc rq t p m pr cp au,
+  handle_e nc rq = ETouch t p (FSigned m pr cp au) -> mem t (n_worker nc) = false ->
+  exists u, snd (identity (n_base nc) rq) = Ok u /\
+  exists kc, resolve1 (cf_keys (n_base nc)) (rq_key rq) = Some (m, kc) /\ allowed u m kc = true /\
+             t = k_token kc /\ t <> 0 /\ mem t (cf_tokens (n_base nc)) = true /\
+             pr = m_key (mat_of (n_mats nc) m) /\ pr <> 0 /\ cp = pr /\ au = m.
+Proof. exact C04.NamesProofs.sign_uses_checked_entry. Qed.
+(* ... in the words of the specification: the entry is the one the name denotes, and its own roles admit the caller *)
+Theorem sign_within_roles : forall nc rq t p m pr cp au,
+  handle_e nc rq = ETouch t p (FSigned m pr cp au) -> mem t (n_worker nc) = false ->
+  exists u, snd (identity (n_base nc) rq) = Ok u /\
+            spec_may_use (cf_keys (n_base nc)) u (rq_key rq) m = true /\ spec_entitled (cf_keys (n_base nc)) u m = true.
+Proof. exact C04.NamesProofs.sign_within_roles. Qed.
+(* /sign, token behind token/worker (type pkcs11): handler -> worker client (resolves, sends Name()) -> worker process
+   (resolves again, for the public key and for every signature) *)
+Theorem sign_worker_checked_entry : forall nc rq t p m pr cp au,
+  handle_e nc rq = ETouch t p (FSigned m pr cp au) -> mem t (n_worker nc) = true ->
+  exists u, snd (identity (n_base nc) rq) = Ok u /\
+  exists kc, resolve1 (cf_keys (n_base nc)) (rq_key rq) = Some (m, kc) /\ allowed u m kc = true /\ t = k_token kc /\ au = m /\
+             pr = m_key (mat_of (n_mats nc) m) /\ pr <> 0 /\
+             spec_may_use (cf_keys (n_base nc)) u (rq_key rq) m = true /\ spec_entitled (cf_keys (n_base nc)) u m = true.
+Proof. exact C04.NamesProofs.sign_worker_checked_entry. Qed.
+(* /keys/{key}: the view hands the token Name() of the checked entry, the token resolves it again *)
+Theorem keys_discloses_checked_entry : forall nc rq t p m cp,
+  handle_e nc rq = ETouch t p (FDisclosed m cp) -> mem t (n_worker nc) = false ->
+  exists u, snd (identity (n_base nc) rq) = Ok u /\
+  exists kc, resolve1 (cf_keys (n_base nc)) (rq_key rq) = Some (p, kc) /\ allowed u p kc = true /\ t = k_token kc /\
+             (m = 0 \/ (m = p /\ cp = m_key (mat_of (n_mats nc) m) /\ cp <> 0 /\
+                        spec_may_use (cf_keys (n_base nc)) u (rq_key rq) m = true /\ spec_entitled (cf_keys (n_base nc)) u m = true)).
+Proof. exact C04.NamesProofs.keys_discloses_checked_entry. Qed.
+(* /keys/{key} behind the worker: three look-ups by name, one entry *)
+Theorem keys_worker_discloses_checked_entry : forall nc rq t p m cp,
+  handle_e nc rq = ETouch t p (FDisclosed m cp) -> mem t (n_worker nc) = true ->
+  exists u, snd (identity (n_base nc) rq) = Ok u /\
+  exists kc, resolve1 (cf_keys (n_base nc)) (rq_key rq) = Some (p, kc) /\ allowed u p kc = true /\ t = k_token kc /\
+             (m = 0 \/ (m = p /\ spec_may_use (cf_keys (n_base nc)) u (rq_key rq) m = true)).
+Proof. exact C04.NamesProofs.keys_worker_discloses_checked_entry. Qed.
+
+(* the concrete paths are instances of the general pipeline: the handler's choice of name is one component *)
+Theorem sign_entry_is_pipeline : forall nc rq t p m pr cp au,
+  handle_e nc rq = ETouch t p (FSigned m pr cp au) -> mem t (n_worker nc) = false ->
+  exists f kc, fwd_of sign_init_name = Some f /\ relayers (cf_keys (n_base nc)) [f] (rq_key rq) = Ok (m, kc).
+Proof. exact C04.NamesProofs.sign_entry_is_pipeline. Qed.
+Theorem keys_entry_is_pipeline : forall nc rq t p m cp,
+  handle_e nc rq = ETouch t p (FDisclosed m cp) -> mem t (n_worker nc) = false -> m <> 0 ->
+  exists f kc, fwd_of info_init_name = Some f /\ relayers (cf_keys (n_base nc)) [f] (rq_key rq) = Ok (m, kc).
+Proof. exact C04.NamesProofs.keys_entry_is_pipeline. Qed.
+
+(* token wrappers of any depth that pass on the name they receive are transparent; the server's and the worker's are *)
+Theorem wrappers_transparent : forall ks ws tok n, Forall (fun w => w = NParam 1) ws -> wraps ks ws tok n = tok n.
+Proof. exact C04.NamesProofs.wraps_transparent. Qed.
+Theorem relic_wrappers_pass_the_name_on :
+  Forall (fun w => w = NParam 1) server_stack /\ Forall (fun w => w = NParam 1) worker_stack /\ server_stack <> [] /\ worker_stack <> [].
+Proof. exact (conj C04.NamesProofs.server_stack_same (conj C04.NamesProofs.worker_stack_same C04.NamesProofs.stacks_nonempty)). Qed.
+
+(* the sites as read from the source: Name() is the map key; GetKey reads the requested entry and the entry its alias
+   names and returns the latter; file and PKCS#11 tokens resolve the name they get and load that entry's material; the key
+   cache is indexed by the name it looks up; only pkcs11 tokens (also the default type) sit behind the worker *)
+Theorem name_sites_reviewed :
+  (keyconf_name_is_field = true /\ normalize_names_keys_by_map_key = true) /\
+  (getkey_map_lookups = [NParam 0; NAliasOf (CRaw (NParam 0))] /\ getkey_returns = CRaw (NAliasOf (CRaw (NParam 0)))) /\
+  (file_resolve_name = NParam 1 /\ file_material_conf = CGetKey file_resolve_name /\ file_key_conf = file_material_conf /\
+   p11_resolve_name = file_resolve_name /\ p11_material_conf = file_material_conf) /\
+  (Forall (fun i => i = cache_inner_name) cache_index_names /\ cache_index_names <> []) /\
+  (open_worker_types = ["pkcs11"%string] /\ default_token_type = "pkcs11"%string).
+Proof.
+  exact (conj C04.NamesProofs.name_is_map_key (conj C04.NamesProofs.getkey_reads_one_alias
+        (conj C04.NamesProofs.tokens_resolve_what_they_get (conj C04.NamesProofs.cache_indexed_by_lookup_name C04.NamesProofs.worker_only_for_pkcs11)))).
+Qed.
+
+(* non-vacuity and regression: the chain old(3) -> legacy(2) -> release(1), the configuration that broke /keys and the worker
+   path before relic 1867fd2.  A caller of `legacy` only is served nothing (old is a configuration error, legacy denotes
+   release); a caller of `release` is served through `legacy` on every path with the key of release *)
+Example names_examples :
+  handle_e (wit_nc [20] [] wit_files) (wit_rq EpSign 3) = EStatus 403 /\
+  handle_e (wit_nc [20] [] wit_files) (wit_rq EpGetKey 3) = EStatus 403 /\
+  handle_e (wit_nc [20] [7] wit_hsm) (wit_rq EpSign 3) = EStatus 403 /\
+  handle_e (wit_nc [20] [] wit_files) (wit_rq EpSign 2) = EStatus 403 /\
+  handle_e (wit_nc [20] [] wit_files) (wit_rq EpSign 1) = EStatus 403 /\
+  handle_e (wit_nc [20] [] wit_files) (wit_rq EpList 0) = EListing [] /\
+  get_key wit_keys 3 = Err E_ALIAS_OF_ALIAS /\
+  handle_e (wit_nc [10] [] wit_files) (wit_rq EpSign 2) = ETouch 7 2 (FSigned 1 101 101 1) /\
+  handle_e (wit_nc [10] [] wit_files) (wit_rq EpGetKey 2) = ETouch 7 1 (FDisclosed 1 101) /\
+  handle_e (wit_nc [10] [7] wit_hsm) (wit_rq EpSign 2) = ETouch 7 2 (FSigned 1 101 101 1) /\
+  handle_e (wit_nc [10] [7] wit_hsm) (wit_rq EpGetKey 2) = ETouch 7 1 (FDisclosed 1 101) /\
+  handle_e (wit_nc [10] [7] wit_files) (wit_rq EpSign 1) = ETouch 7 1 (FSigned 1 101 101 1) /\
+  handle_e (wit_nc [10] [] wit_files) (wit_rq EpList 0) = EListing [1; 2].
+Proof. exact C04.NamesProofs.names_examples. Qed.
